@@ -22,11 +22,27 @@ from cgroup import Case
 from cprop import CompilerProp
 
 ID = "C01"
-LEAN_MODULES = ["FaxVerif.C01.Theorems", "FaxVerif.C01.TheoremsMiniAod", "FaxVerif.C01.TheoremsLazy", "FaxVerif.C01.TheoremsNested"]
+LEAN_MODULES = ["FaxVerif.C01.Theorems", "FaxVerif.C01.TheoremsMiniAod", "FaxVerif.C01.TheoremsLazy", "FaxVerif.C01.TheoremsNested", "FaxVerif.C01.TheoremsCapture"]
 LEAN_SOURCES = ["FaxVerif/C01", "FaxVerif/Gen", "FaxVerif/Cpp", "FaxVerif/Linq"]
 DRIVER = cgroup.DRIVER
-SETUP_MODULES = cgroup.DRIVER_IMPORTS + ["FaxVerif.Gen.Lazy", "FaxVerif.Gen.Nested"]  # what the drivers import
+SETUP_MODULES = cgroup.DRIVER_IMPORTS + ["FaxVerif.Gen.Lazy", "FaxVerif.Gen.Nested", "FaxVerif.Gen.Capture"]  # what the drivers import
 THEOREMS = [
+    "FaxVerif.C01.captured_expr_correct",
+    "FaxVerif.C01.captured_loop_is_fold",
+    "FaxVerif.C01.captured_aggregate_correct",
+    "FaxVerif.C01.captured_retrieval_per_outer_element",
+    "FaxVerif.C01.captureEventRows_correct_partial",
+    "FaxVerif.C01.captured_twoD_column_correct_partial",
+    "FaxVerif.C01.capture_token_table",
+    "FaxVerif.C01.capture_job_correct_partial",
+    "FaxVerif.C01.capture_job_split",
+    "FaxVerif.C01.capture_job_prefix_independent",
+    "FaxVerif.C01.capture_job_perm",
+    "FaxVerif.C01.capture_outer_only_select_counterexample",
+    "FaxVerif.Gen.celem_correct",
+    "FaxVerif.Gen.cchainList_elems",
+    "FaxVerif.Gen.compXE_correct",
+    "FaxVerif.Gen.pushColT_correct",
     "FaxVerif.C01.inner_loop_is_fold",
     "FaxVerif.C01.inner_aggregate_correct",
     "FaxVerif.C01.nestedRows_correct_partial",
@@ -70,6 +86,10 @@ RULE = (
     "stream 'lazy-tie': random queries of the lazy fragment (element-level rows whose columns and Where conditions use n-ary and/or "
     "and if-else, arbitrarily nested), Gen.compileL text vs implementation text on the three backends, and the model's package "
     "executed on events with null elements against denote; "
+    "stream 'capture-tie': random queries of the captured-variable fragment (inside the lambda over the elements of one event "
+    "collection ANOTHER event collection is iterated, its Select / Where lambdas mention both loop variables: per-element Count/Sum "
+    "vector columns and 2-D columns), Gen.compileC text vs implementation text on the three backends, the model's package executed per "
+    "event and as one job against denote, every generated query checked by the driver to be inside the proved fragment; "
     "stream 'generated': type-directed random queries of the larger language (nesting <=3, First, and/or, if-else, Aggregate, 1-D/2-D "
     "columns, dict/tuple/list terminals) x 4 events, implementation's program executed by the Lean semantics vs Lean denotation. "
     "Non-trivial: >=2 distinct operators and >=1 event with a row; distinct = distinct (backend, query)."
@@ -87,13 +107,13 @@ LEVEL_TEXT = (
     "Lean 4 compiler-correctness theorems for a compositional model of the translator on the fragment F0-lite, for every query of "
     "the fragment (unbounded chain length, expression size, number of columns), every event, every number model, END TO END for the "
     "whole emitted package: event-level rows with scalar (Count/Sum/arithmetic incl. the int/int division cast), vector and First "
-    "columns (eventRows_correct_partial), element-level rows (elemRows_correct_partial) and element-level rows whose columns and Where conditions contain and / or / if-else in any nesting, lowered to guarded statements (elemRowsL_correct_partial; expression level in both directions: lazy_expr_correct, C04.lazy_expr_faults_equal), and NESTED iteration — a lambda whose body iterates a collection returned by a method of the element: per-element inner Count/Sum (accumulator declared in the outer loop body), 2-D vector columns with their storage vector, element-level rows with inner aggregates (inner_aggregate_correct, nestedEventRows_correct_partial, twoD_column_correct_partial, nestedRows_correct_partial) — on ATLAS, CMS AOD and — with the token table the package itself emits proved to bind every retrieval to its bank (miniaod_token_table) — CMS miniAOD (eventRows_correct_miniaod_partial, elemRows_correct_miniaod_partial, which also give the class state left behind); plus the building blocks: pure expressions "
+    "columns (eventRows_correct_partial), element-level rows (elemRows_correct_partial) and element-level rows whose columns and Where conditions contain and / or / if-else in any nesting, lowered to guarded statements (elemRowsL_correct_partial; expression level in both directions: lazy_expr_correct, C04.lazy_expr_faults_equal), and NESTED iteration — a lambda whose body iterates a collection returned by a method of the element: per-element inner Count/Sum (accumulator declared in the outer loop body), 2-D vector columns with their storage vector, element-level rows with inner aggregates (inner_aggregate_correct, nestedEventRows_correct_partial, twoD_column_correct_partial, nestedRows_correct_partial), and CAPTURED-VARIABLE nested iteration — inside the lambda over one event collection another EVENT-LEVEL collection is iterated with Select / Where lambdas that mention both loop variables (2-variable pure expressions): per-outer-element Count/Sum and 2-D columns, the inner retrieval, its handle variable and the accumulator / storage vector inside the outer loop body, the outer variable still bound in the inner loop (captured_expr_correct, captured_loop_is_fold, captured_aggregate_correct, captureEventRows_correct_partial, captured_twoD_column_correct_partial, capture_token_table, capture_job_correct_partial with split / prefix / permutation corollaries) — on ATLAS, CMS AOD and — with the token table the package itself emits proved to bind every retrieval to its bank (miniaod_token_table) — CMS miniAOD (eventRows_correct_miniaod_partial, elemRows_correct_miniaod_partial, which also give the class state left behind); plus the building blocks: pure expressions "
     "with faults (pure_expr_correct), the loop as a fold (loop_is_fold), the fused-Where and-lowering, hoisted declarations. The model is tied to the real translator on every run by text equality on generated fragment queries (three "
     "backends). Beyond the fragment (nesting deeper than two loops, inner SelectMany, First inside expressions, and/or/if-else in Select bodies and event-level expressions, 2-D columns) the property is "
     "checked by executing the implementation's own output in the Lean semantics against the Lean denotation — differential, not proof."
 )
 LEVEL_NOTE = (
-    "Proof frontier: F0-lite + lazy + nested fragments as stated (one level of loops nested inside lambdas over method-returned collections with pure inner steps, and/or/if-else only in row columns and Where conditions of element-level rows (conditional arms floating), no 2-D columns); "
+    "Proof frontier: F0-lite + lazy + nested + captured-variable fragments as stated (one level of loops nested inside lambdas: over method-returned collections with pure inner steps, or over another event collection with inner steps that mention the outer element (event-level rows only; every inner Select body mentions the inner variable — selsUseInner, the known hoisting defect, capture_outer_only_select_counterexample), and/or/if-else only in row columns and Where conditions of element-level rows (conditional arms floating), no 2-D columns); "
     "success direction only. Defect exclusions (listed in known_findings.jsonl with concrete "
     "inputs, the generator stays outside them): aggregates/First over SelectMany inside a lambda; lambda bodies that ignore their "
     "variable under First/aggregates; sequence-valued columns in element-level rows; Min/Max seeded with 0; Range with computed bounds; "
@@ -202,6 +222,43 @@ def nested_tie_stream(ctx, n):
         ctx.disagreement("Gen.compileN executed vs denote (model instance)", case, first.get("exec"), first.get("denote"))
     else:
         ctx.disagreement("Gen.compileN vs translator (nested fragment, text modulo renaming)", case, first.get("model_body"), first.get("impl_body") or first.get("what"))
+
+
+def capture_tie_stream(ctx, n):
+    """text tie of Gen.compileC (another event collection iterated inside the lambda over one collection, with predicates /
+    projections that mention both loop variables) with the real translator. A text disagreement is not yet a violation:
+    the IMPLEMENTATION's own output for the disagreeing queries is executed on their events against the denotation
+    (the differential machinery of the 'generated' stream) — the first one that computes other rows is reported as a
+    concrete failing input."""
+    import gentie_capture
+
+    agree, total, first = gentie_capture.run_stream(ctx, n)
+    if first is None:
+        return
+    case = {"backend": first.get("backend"), "source": first.get("source"), "fq": first.get("cq"), "first_difference": first.get("first_difference")}
+    if first.get("kind") == "refused":
+        ctx.violation(key=f"capture|{first.get('backend')}|{first.get('source')}", what=first.get("what"), case=case, observed=first.get("what"))
+        return
+    texts = [d for d in gentie_capture.LAST_DISAGREEMENTS if d.get("kind") == "text"][:12]
+    cases = []
+    for d in texts:
+        q, names = gentie_capture.cq_query(d["cq"])
+        # fresh, well-formed events (the tie's own events may carry null links / objects without an accessor, which the
+        # g++ mock of the data model does not render)
+        evs = [gentie_capture.gen_event(ctx.rng, d["backend"], d["cq"], False) for _ in range(4)]
+        cases.append(Case(d["backend"], q, names, "capture", evs))
+    if cases:
+        ctx.count("capture-tie:text-disagreements-executed", len(cases))
+        _P.evaluate(ctx, cases)
+        for c in cases:
+            hit = judge(c)
+            if hit is not None and hit.get("kind") != "broken":
+                ctx.violation(key=c.key(), what=hit["what"], case=c.to_json(), observed=hit.get("observed"), how=_P.how)
+                return
+    if first.get("kind") == "model-instance":
+        ctx.disagreement("Gen.compileC executed vs denote (model instance)", case, first.get("exec") or first.get("job"), first.get("denote") or first.get("want"))
+    else:
+        ctx.disagreement("Gen.compileC vs translator (captured-variable fragment, text modulo renaming)", case, first.get("model_body"), first.get("impl_body") or first.get("what"))
 
 
 JOBCFG = {"cms_aod": "analyzer_cfg.py", "cms_miniaod": "analyzer_cfg.py"}
@@ -396,6 +453,7 @@ def run(ctx):
     tie_stream(ctx, n_tie)
     lazy_tie_stream(ctx, 90 if ctx.tier == "quick" else 1500)
     nested_tie_stream(ctx, 90 if ctx.tier == "quick" else 1500)
+    capture_tie_stream(ctx, 66 if ctx.tier == "quick" else 900)
     # the differential stream (known findings were replayed above)
     saved = _P.known
     _P.known = lambda c: None
